@@ -97,16 +97,29 @@ def merge_c_stats(ctx, results, what, sample_prefix=""):
     return viols
 
 
-def ddmin(data, fails):
-    """Delta-debug a failing byte string (fails(bytes) -> bool)."""
+def ddmin(data, fails, budget=3000):
+    """Delta-debug a failing byte string (fails(bytes) -> bool). At most `budget` evaluations of the predicate: a failure that depends on a
+    position modulo a buffer size shrinks one byte per quadratic round, so the shrink is best effort (the unshrunk input is a valid replay)."""
     n = 2
     data = bytes(data)
-    while len(data) >= 2:
+    calls = [0]
+    seen = set()
+
+    def f(cand):
+        if cand in seen:
+            return False          # already tried (uniform inputs give the same candidate for every position)
+        seen.add(cand)
+        calls[0] += 1
+        return fails(cand)
+
+    while len(data) >= 2 and calls[0] < budget:
         chunk = max(1, len(data) // n)
         reduced = False
         for i in range(0, len(data), chunk):
+            if calls[0] >= budget:
+                break
             cand = data[:i] + data[i + chunk:]
-            if fails(cand):
+            if f(cand):
                 data = cand
                 n = max(n - 1, 2)
                 reduced = True
